@@ -85,7 +85,7 @@ structure Core where
   buf : List Val
   hs : List Handle
   cnt : List Nat            -- sc, rc, unpub, kpub, inflight, tomb
-  flags : List Bool         -- rd, pd
+  flags : List Bool         -- rd, pd, osw
   os : OsState
   sw : List (Nat × Nat × Val)
   rw : List (Nat × Nat)
@@ -96,7 +96,7 @@ structure Core where
   deriving DecidableEq, Hashable
 
 def St.core (s : St) : Core :=
-  ⟨s.buf, s.hs, [s.sc, s.rc, s.unpub, s.kpub, s.inflight, s.tomb], [s.rd, s.pd], s.os, s.sw, s.rw,
+  ⟨s.buf, s.hs, [s.sc, s.rc, s.unpub, s.kpub, s.inflight, s.tomb], [s.rd, s.pd, s.osw], s.os, s.sw, s.rw,
    [s.rcanc, s.rdisc], s.sdone, s.sdisc, s.rdone⟩
 
 abbrev Key := Core × List (Nat × PL)
